@@ -6,7 +6,7 @@ import os
 from jugverif import core, lockrun
 
 LEVEL = 'proof'
-THEOREMS = ['Jug.C04.file_wellTyped', 'Jug.C04.keepalive_wellTyped', 'Jug.C04.redis_wellTyped', 'Jug.C04.dict_wellTyped', 'Jug.C04.mutex', 'Jug.C04.held_excludes',
+THEOREMS = ['Jug.C04.file_wellTyped', 'Jug.C04.keepalive_wellTyped', 'Jug.C04.redis_wellTyped', 'Jug.C04.dict_wellTyped', 'Jug.C04.file_fail_on_free', 'Jug.C04.keepalive_fail_on_free', 'Jug.C04.redis_fail_on_free', 'Jug.C04.mutex', 'Jug.C04.held_excludes',
             'Jug.C04.get_truthful', 'Jug.C04.failed_stays', 'Jug.C04.race_one_winner', 'Jug.C04.solo_behaviour', 'Jug.C04.failed_window', 'Jug.C04.failed_window_idle', 'Jug.Lock.lstep_inv2']
 BACKENDS = ['file', 'keepalive', 'redis', 'dict']
 
